@@ -199,9 +199,14 @@ def h_history(ctx, which, n, k=1):
         for o in orders:
             calls.append((d, o))
     calls += [(d1, orders[-1]), (d1, orders[0]), (d2, orders[-1]), (b'', orders[0]), (d1, orders[0])]
+    other = 'crc32c' if which == 'crc16' else 'crc16'
+    ofn = getattr(crcmod, other)
     for i, (d, o) in enumerate(calls):
         out = fn(d) if o is None else fn(d, o)
         ctx.require(out == ref_crc(which, d, o), f'{which}: call sequence - every call equals the bitwise definition')
+        if i % 3 == 1:
+            # the other checksum of the same data in between: the two functions share nothing
+            ctx.require(ofn(d) == ref_crc(other, d, None), f'{other}: call sequence - every call equals the bitwise definition')
 
 
 def h_vectors(ctx, which):
@@ -239,6 +244,9 @@ def instances(tier, seed):
                 yield 'h_long', dict(which=which, n=n, pos=pos)
         yield 'h_long', dict(which=which, n=64, pos=62, k=2)
         yield 'h_long', dict(which=which, n=68, pos=66, k=1, byteorder='big' if which == 'crc32c' else None)
+    for n in (255, 256, 511, 512, 513, 1024, 4096) + ((2048, 9878, 65536) if tier == 'thorough' else ()):
+        for bo in ('big', 'little'):
+            yield 'h_long', dict(which='crc32c', n=n, pos=n - 1, byteorder=bo)
 
 
     for which in ('crc16', 'crc32c'):
